@@ -8,6 +8,7 @@ import (
 	"net/http"
 	"os"
 	"runtime"
+	"strings"
 	"testing"
 
 	connect "github.com/bufbuild/connect-go"
@@ -30,10 +31,34 @@ type c19Case struct {
 	Before   int    `json:"before"`   // interceptors declared before WithRecover
 	After    int    `json:"after"`    // interceptors declared after WithRecover
 	PanicNil bool   `json:"panicnil"` // GODEBUG=panicnil=1 (recover() returns nil for panic(nil))
+	// Ret is what the recovery function returns: "" coded error | uncoded |
+	// wrapped-coded | ctx-deadline | coded-meta
+	Ret string `json:"ret,omitempty"`
 }
 
 func (k c19Case) key() string {
+	if k.Ret != "" {
+		return fmt.Sprintf("%s/%s/%s/p%d/b%da%d/panicnil=%v/ret=%s", k.Proto, k.Kind, k.Value, k.Point, k.Before, k.After, k.PanicNil, k.Ret)
+	}
 	return fmt.Sprintf("%s/%s/%s/p%d/b%da%d/panicnil=%v", k.Proto, k.Kind, k.Value, k.Point, k.Before, k.After, k.PanicNil)
+}
+
+// c19RecoveryError is the error the recovery function returns on its n-th call.
+func c19RecoveryError(ret string, n int) error {
+	coded := connect.NewError(connect.CodeDataLoss, fmt.Errorf("recovered #%d", n))
+	switch ret {
+	case "uncoded":
+		return fmt.Errorf("plain recovered #%d", n)
+	case "wrapped-coded":
+		return fmt.Errorf("outer: %w", coded)
+	case "ctx-deadline":
+		return fmt.Errorf("late #%d: %w", n, context.DeadlineExceeded)
+	case "coded-meta":
+		coded.Meta().Add("X-Err", "m1")
+		coded.Meta().Add("X-Err", "m2")
+		return coded
+	}
+	return coded
 }
 
 type c19Struct struct{ A int }
@@ -90,7 +115,12 @@ type c19Result struct {
 
 // c19Run performs one call.  withRecover=false builds the same handler
 // without WithRecover (reference for non-panicking calls).
-func c19Run(k c19Case, withRecover bool) c19Result {
+func c19Run(k c19Case, withRecover bool) c19Result { return c19RunMode(k, withRecover, false) }
+
+// c19RunMode: with returnInstead the handler does not panic but returns the
+// recovery function's error at the same point (differential reference for
+// "the client receives the error that function returned").
+func c19RunMode(k c19Case, withRecover, returnInstead bool) c19Result {
 	var out c19Result
 	passes := 0
 	var opts []connect.HandlerOption
@@ -100,19 +130,25 @@ func c19Run(k c19Case, withRecover bool) c19Result {
 	if withRecover {
 		opts = append(opts, connect.WithRecover(func(ctx context.Context, spec connect.Spec, hdr http.Header, r any) error {
 			out.Recovered = append(out.Recovered, r)
-			return connect.NewError(connect.CodeDataLoss, fmt.Errorf("recovered #%d", len(out.Recovered)))
+			return c19RecoveryError(k.Ret, len(out.Recovered))
 		}))
 	}
 	for i := 0; i < k.After; i++ {
 		opts = append(opts, connect.WithInterceptors(passI{&passes}))
 	}
-	doPanic := func(at int) {
+	doPanic := func(at int) error {
 		if k.Value != "none" && k.Value != "none-err" && k.Point == at {
+			if returnInstead {
+				return c19RecoveryError(k.Ret, 1)
+			}
 			panic(c19Value(k.Value))
 		}
+		return nil
 	}
 	h := NewHandler(k.Kind, func(ctx context.Context, s HStream) error {
-		doPanic(0)
+		if err := doPanic(0); err != nil {
+			return err
+		}
 		if k.Value == "none-err" && k.Point == 0 {
 			return connect.NewError(connect.CodeInvalidArgument, errors.New("plain failure, no panic"))
 		}
@@ -127,7 +163,9 @@ func c19Run(k c19Case, withRecover bool) c19Result {
 		if err := s.Send(&BV{Value: []byte{'h', 0}}); err != nil {
 			return err
 		}
-		doPanic(1)
+		if err := doPanic(1); err != nil {
+			return err
+		}
 		if k.Value == "none-err" && k.Point == 1 {
 			return connect.NewError(connect.CodeInvalidArgument, errors.New("plain failure, no panic"))
 		}
@@ -136,8 +174,7 @@ func c19Run(k c19Case, withRecover bool) c19Result {
 				return err
 			}
 		}
-		doPanic(2)
-		return nil
+		return doPanic(2)
 	}, opts...)
 	tr := &memhttp.Transport{Handler: h, Proto: 2, SyncCloseReq: true}
 	cl := NewClient(tr, Cfg{Proto: k.Proto, Comp: CompNone})
@@ -213,8 +250,24 @@ func c19Check(c *ev.Collector, k c19Case) {
 			bad = true
 			viol("recovered-once", "escaped", "the panic escaped ServeHTTP: %v", got.PanicValue)
 		}
+		// differential: same observation as a handler that returns that error itself
+		ref := c19RunMode(k, false, true)
+		if obsString(ref.Res) != obsString(got.Res) {
+			bad = true
+			viol("client-gets-recovery-error", "differs-from-returned", "recovery function returned %q; client observed %s; a handler returning that error at the same point gives %s", c19RecoveryError(k.Ret, 1), obsString(got.Res), obsString(ref.Res))
+		}
 		var ce *connect.Error
-		if got.Res.Err == nil || !errors.As(got.Res.Err, &ce) || ce.Code() != connect.CodeDataLoss || ce.Message() != "recovered #1" {
+		if k.Ret == "uncoded" {
+			if got.Res.Err == nil || !errors.As(got.Res.Err, &ce) || ce.Code() != connect.CodeUnknown || ce.Message() != "plain recovered #1" {
+				bad = true
+				viol("client-gets-recovery-error", "wrong-error", "client received %v (msgs %s); want unknown: plain recovered #1", got.Res.Err, shortMsgs(got.Res.Msgs))
+			}
+		} else if k.Ret == "ctx-deadline" {
+			if connect.CodeOf(got.Res.Err) != connect.CodeDeadlineExceeded {
+				bad = true
+				viol("client-gets-recovery-error", "wrong-error", "client received %v; want deadline_exceeded", got.Res.Err)
+			}
+		} else if got.Res.Err == nil || !errors.As(got.Res.Err, &ce) || ce.Code() != connect.CodeDataLoss || !strings.HasSuffix(ce.Message(), "recovered #1") {
 			bad = true
 			viol("client-gets-recovery-error", "wrong-error", "client received %v (msgs %s); want data_loss: recovered #1", got.Res.Err, shortMsgs(got.Res.Msgs))
 		}
@@ -258,6 +311,11 @@ func c19Cases(thorough bool) []c19Case {
 							}
 							for _, pn := range []bool{false, true} {
 								out = append(out, c19Case{Proto: p, Kind: kind, Value: v, Point: pt, Before: before, After: after, PanicNil: pn})
+								if (v == "string" || v == "nil" || (thorough && v == "error")) && (thorough || before+after <= 1) {
+									for _, ret := range []string{"uncoded", "wrapped-coded", "ctx-deadline", "coded-meta"} {
+										out = append(out, c19Case{Proto: p, Kind: kind, Value: v, Point: pt, Before: before, After: after, PanicNil: pn, Ret: ret})
+									}
+								}
 							}
 						}
 					}
@@ -271,7 +329,7 @@ func c19Cases(thorough bool) []c19Case {
 func TestC19(t *testing.T) {
 	c := ev.New("C19")
 	defer func() { _ = c.Finish() }()
-	c.SetRule("configuration x program enumeration on real handlers: panic value {nil, error, string, struct, pointer, http.ErrAbortHandler, error wrapping the sentinel, none, none but the handler returns an error} x {unary, client, server, bidi} x {connect, grpc, grpcweb} x panic point {before anything, after the first send, after the last send} x WithRecover preceded/followed by 0..2 other interceptors x GODEBUG panicnil {0,1}; oracle: recovery function called exactly once with the recovered value, client receives exactly its error (after the messages already sent), the abort sentinel is re-raised out of ServeHTTP with zero recovery calls, non-panicking calls equal a handler built without WithRecover; non-trivial = a panic is raised")
+	c.SetRule("configuration x program enumeration on real handlers: panic value {nil, error, string, struct, pointer, http.ErrAbortHandler, error wrapping the sentinel, none, none but the handler returns an error} x {unary, client, server, bidi} x {connect, grpc, grpcweb} x panic point {before anything, after the first send, after the last send} x WithRecover preceded/followed by 0..2 other interceptors x GODEBUG panicnil {0,1} x recovery-function result {coded error, uncoded error, error wrapping a coded one, uncoded error wrapping context.DeadlineExceeded, coded error with two-valued metadata}; oracle: recovery function called exactly once with the recovered value, client receives exactly its error (after the messages already sent; differential: identical observation to a handler that returns that error at the same point, plus explicit expected code/message), the abort sentinel is re-raised out of ServeHTTP with zero recovery calls, non-panicking calls equal a handler built without WithRecover; non-trivial = a panic is raised")
 	c.Assume("memhttp reports the value that escapes ServeHTTP like net/http's server would see it")
 	if ev.ReplayFile() != "" {
 		var k c19Case
